@@ -196,16 +196,21 @@ impl Constraints {
             let random_angle = if from < to {
                 // Direct generation when `from` is less than `to`
                 from + rng.gen_range(0.0..(to - from))
+            } else if from == to {
+                // No constraint on this joint: any angle of the full circle
+                from + rng.gen_range(0.0..(2.0 * PI))
             } else {
-                // Wrap-around case: generate an angle based on two segments
-                let range_length = (2.0 * PI - (from - to)).abs();
-                let segment = rng.gen_range(0.0..range_length);
-
-                // Determine which segment to take (before or after the wrap)
-                if segment < (2.0 * PI - from) {
-                    from + segment // Within the forward wrap
+                // Wrap-around case: move `to` forward by whole turns till it gets ahead of `from`
+                // (the same way compute_centers does) and draw from the resulting ordinary range.
+                let mut end = to;
+                while end < from {
+                    end += 2.0 * PI;
+                }
+                let width = end - from;
+                if width > 0.0 {
+                    from + rng.gen_range(0.0..width)
                 } else {
-                    to + (segment - (2.0 * PI - from)) // After the wrap
+                    from // The range is a single point
                 }
             };
             random_angle
